@@ -71,7 +71,7 @@ def plan(tier):
 def setup_worker(ctx):
     warnings.simplefilter('ignore')
     ctx.state['reach'] = Reach(REACH).start()
-    ctx.state['inv'] = CIMIntInvariant().start()
+    ctx.state['inv'] = CIMIntInvariant(ctx).start()
     missing = set(ops.public_operations()) - set(ops.ALL_OPS)
     if missing:
         ctx.violation('harness.catalogue-incomplete',
@@ -511,10 +511,16 @@ def case_tocimxmlstr(ctx, rng):
             path.host = cimgen.host(rng)
             kind += '+host-only-path'
     indent = rng.choice([None, None, 2, '\t', ' '])
+    judge_tocimxmlstr(ctx, kind, obj, indent)
+
+
+def judge_tocimxmlstr(ctx, kind, obj, indent, origin=None):
     ctx.evaluated()
     ctx.cls('tocimxmlstr/' + kind)
     ctx.count('tocimxmlstr')
     detail = {'kind': kind, 'indent': indent, 'repr': short(repr(obj), 800)}
+    if origin:
+        detail['origin'] = origin
     try:
         if kind.startswith('parameter_value'):
             s = pywbem.tocimxmlstr(obj.tocimxml(as_value=True), indent)
@@ -625,3 +631,45 @@ def run_case(ctx, i, rng):
         case_operation(ctx, rng)
     else:
         case_tocimxmlstr(ctx, rng)
+
+
+# ------------------------------------------------ harvested objects (thorough)
+
+HARVEST_CLASSES = ['CIMInstanceName', 'CIMClassName', 'CIMInstance',
+                   'CIMClass', 'CIMProperty', 'CIMMethod', 'CIMParameter',
+                   'CIMQualifier', 'CIMQualifierDeclaration']
+
+
+def _harvest_setup(ctx):
+    warnings.simplefilter('ignore')
+
+
+def _judge_harvested(ctx, cls, obj):
+    """tocimxmlstr() of an object that the repository's tests constructed
+    must be well-formed and DTD-valid, with every indentation."""
+    from vf.harvest import KIND, in_domain
+    if not in_domain(obj, []):
+        ctx.outcome('harvested-outside-domain')
+        ctx.count('outside-domain')
+        return
+    kind = 'harvested-' + KIND[cls]
+    if cls == 'CIMParameter' and obj.value is not None:
+        kind = 'parameter_value+harvested'
+    for indent in (None, 2):
+        judge_tocimxmlstr(ctx, kind, obj, indent,
+                          origin='harvested from the repository tests')
+
+
+def post_run(tier, seed, workdir):
+    """Thorough tier: the tocimxmlstr() oracle on every CIM object that the
+    repository's own unit tests construct (vf/harvest.py)."""
+    if tier != 'thorough':
+        return {}
+    from vf.harvest import judge_harvest
+    return judge_harvest('C03', tier, seed, workdir, _judge_harvested,
+                         HARVEST_CLASSES, setup=_harvest_setup)
+
+
+def replay_harvested(ctx, rec):
+    from vf.harvest import replay_harvested as rh
+    rh(ctx, rec, _judge_harvested)
